@@ -129,7 +129,8 @@ def _allocs(rng, parts):
 
 
 def gen_case(rng, pid, tier):
-    racks = ['rack:1'] if rng.random() < 0.5 else ['rack:1', 'rack:2']
+    # (a bucket name is <level>:<id>; the id may itself contain a colon)
+    racks = ['rack:1'] if rng.random() < 0.5 else ['rack:1', rng.choice(['rack:2', 'rack:ny:2'])]
     parts = [None] if rng.random() < 0.6 else [None, 'p2']
     nsrv = rng.randint(2, 4)
     servers = {str(i): _srv_spec(rng, racks, parts) for i in range(1, nsrv + 1)}
@@ -1236,7 +1237,7 @@ def _start_master(w):
     w.last_sched = w.store.children('/scheduled')
 
 
-SCHED_PIDS = ('C01', 'C03', 'C05', 'C08')
+SCHED_PIDS = ('C01', 'C03', 'C04', 'C05', 'C08')
 
 
 class _SchedView(object):
@@ -1274,6 +1275,9 @@ class _SchedView(object):
                 return None
             return own, off
         self.trait_names = trait_names
+        # the level of a node, from its NAME (`<level>:<id>`), not from the attribute the loader computed
+        self.level_of = lambda node: ('cell' if node is w.m.cell else
+                                      'server' if isinstance(node, w.sch.Server) else node.name.split(':')[0])
 
         def partition_names(appname, servername):
             """(partition the stored /allocations assign the instance to, partition of the stored server record)."""
